@@ -336,6 +336,8 @@ class C19(core.Check):
                 deleted.append(lab(nearest(b, centres, 1e-5), nearest(t, centres, 1e-5)))
         except Exception as e:
             deleted = type(e).__name__
+            if nx * ny * nz == 1 and deleted == "RuntimeError":
+                deleted = []  # the only operation is deleted: nothing is left to assemble, write() refuses
         return {"dims_ok": dims_ok, "grid": grid, "ops": ops, "slices": slices, "deleted": deleted}
 
     def _run_round(self, case: dict) -> Any:
